@@ -176,3 +176,69 @@ def commute_programs(seed, n, kinds=("abelian", "fermionic"), syms=gen.SYMS, tid
         kind = kinds[(i // len(syms)) % len(kinds)]
         progs.append(commute_program(rng, tids(), sym, kind, rng.choice(["float64", "complex128"])))
     return progs
+
+
+# ---------------------------------------------------------------------------
+# C07: reshape
+
+def merge_drop_targets(rng, shape, k=3):
+    """Shapes obtained by merging adjacent axes and/or dropping unit axes."""
+    out = []
+    n = len(shape)
+    for _ in range(20):
+        # random segmentation of the axes; unit axes may be dropped instead
+        t = []
+        i = 0
+        ok = True
+        while i < n:
+            if shape[i] == 1 and rng.random() < 0.5:
+                i += 1
+                continue
+            ln = rng.randint(1, min(3, n - i))
+            prod = 1
+            for d in shape[i:i + ln]:
+                prod *= d
+            t.append(prod)
+            i += ln
+        if t != list(shape) and t not in out:
+            out.append(t)
+        if len(out) >= k:
+            break
+    return out
+
+
+def total_shape(desc):
+    return [sum(e["d"] for e in ix["cm"]) for ix in desc["ix"]]
+
+
+def reshape_program(rng, tid, sym, kind, dtype="float64"):
+    rank = rng.randint(1, 4)
+    x = gen.rand_array(rng, sym, rank, kind, dtype=dtype, sparse=0.5, maxc=2 if rank == 4 else 3,
+                       phases=0.4 if kind == "fermionic" else 0.0, unit_prob=0.3)
+    shape = total_shape(x)
+    steps = [{"op": "reshape", "in": ["x"], "out": ["same"], "args": {"newshape": shape},
+              "entry": rng.choice(["method", "symmray", "autoray"])},
+             rel("array_equal_den", "C07.identity", "x", "same")]
+    for n, t in enumerate(merge_drop_targets(rng, shape)):
+        steps.append({"op": "reshape", "in": ["x"], "out": [f"r{n}"], "args": {"newshape": t},
+                      "entry": rng.choice(["method", "symmray", "autoray"])})
+        steps.append({"op": "reshape", "in": [f"r{n}"], "out": [f"b{n}"], "args": {"newshape": shape, "back": True}})
+        steps.append(rel("blocks" if kind == "abelian" else "same", "C07.roundtrip", "x", f"b{n}"))
+    # an already fused axis among the inputs
+    if rank >= 2 and rng.random() < 0.5:
+        g = sorted(rng.sample(range(rank), 2))
+        if g[1] == g[0] + 1:
+            steps.append({"op": "fuse", "in": ["x"], "out": ["xf"], "args": {"groups": [g]}})
+            steps.append({"op": "reshape", "in": ["xf"], "out": ["xfu"], "args": {"newshape": shape, "back": True}})
+            steps.append(rel("blocks" if kind == "abelian" else "same", "C07.roundtrip.prefused", "x", "xfu"))
+    return {"tid": tid, "inputs": {"x": x}, "steps": steps}
+
+
+def reshape_programs(seed, n, kinds=("abelian", "fermionic"), syms=gen.SYMS, tids=None):
+    tids = tids or gen.Tids()
+    progs = []
+    for i in range(n):
+        rng = gen.rng_for(seed, "reshape", i)
+        progs.append(reshape_program(rng, tids(), syms[i % len(syms)], kinds[(i // len(syms)) % len(kinds)],
+                                     rng.choice(["float64", "complex128"])))
+    return progs
